@@ -42,6 +42,11 @@ func init() {
 		Run:              run,
 		Replay:           replay,
 		MemMB:            7000,
+		// loading never takes long for its size: the largest inputs (10^6-level
+		// nesting, 3*10^6 in the thorough tier) take seconds, the rest micro- to
+		// milliseconds; a case that is still running after 15 minutes is a loader
+		// that does not terminate (e.g. jump threading going round a cycle)
+		HangSeconds: 900,
 		Reproducers: map[string]func(c *fw.Ctx) (bool, string){
 			"C08-deep-nesting-stack-overflow": func(c *fw.Ctx) (bool, string) {
 				// dies with a fatal Go stack overflow (matcher "crash": the process death is the observation)
@@ -512,12 +517,18 @@ func run(c *fw.Ctx) {
 	// 5. special cut points
 	specials := []string{"\"\\", "\"\\1", "\"\\12", "\"\\256\"", "\"\\\n", "'\\\r\n'", "[[", "[=[", "[==[x]=]", "--[[", "--[==[x]]", "0x", "0xg", "1e", "1e+", "1..2", "1...2", "3..", ".", "..", "...",
 		"#!shebang\nreturn 1", "#!only", "#", "\xef\xbb\xbfreturn 1", "return\"a\\z  b\"", "x = 'a\nb'", "goto", "goto 1", "::", "::x", "::x::", "::x:: ::x::", "goto nowhere", "do local a goto l local b ::l:: b = 1 end",
+		"return 1 % 0", "return 0 % 0", "return -(3) % (2-2)", "return 2^53 % 0", "return 1 / 0", "return 0 / 0", "return 5 % -0", "local a = 7 % 0.0", "return (1%0)^(0/0) .. ''", "return 2^1024, -2^1024, 2^-1080", "x = 1e308 * 10 % 3",
+		"if a then a = 1 end while true do end", "if a then a = 1 end repeat until false", "if a then b = 1 else while true do end end", "while c do if d then break end end while true do end",
+		"if a or b then while true do end end", "do goto l end ::l:: while true do end", "repeat if a then break end until b repeat until false", "::a:: goto a", "::a:: ::b:: goto a", "while true do end",
 		"f\n(1)", "local x <const> = 1", "a.b:c = 1", "return return", "break", "for = 1", "function end", "local function", "x = }", "x = ]]", "\x00", "return '\x00'", "return \"\\0\"", "while do end", "if then end", "and = 1", "local and = 1"}
+	// (inputs of a few dozen bytes load in microseconds: two minutes is non-termination)
+	c.HangLimit(120)
 	for i, s := range specials {
 		if c.Mine(i) {
 			check(c, Case{Kind: "special"}, []byte(s), true)
 		}
 	}
+	c.HangLimit(0)
 	// 6. LoadFile: shebang and empty files
 	if c.Shard == 0 {
 		for i, content := range []string{"", "#!/usr/bin/lua\nreturn 1", "#!x", "#", "\n", "return 1"} {
